@@ -162,12 +162,14 @@ def _work(item):
     }
 
 
-def build_cases(seed):
+def build_cases(seed, quick=False):
     S, T = POOL[seed % len(POOL)]
     cs = {}
     for name, frames in corpus(S, T).items():
         for gname, g in GARBAGE:
             if gname != "none" and len(frames) < 2:
+                continue
+            if quick and gname == "long_noise" and name not in ("logon_app", "logon_grp_tr"):
                 continue
             cs[(name, gname)] = Case(S, T, name, frames, gname, g)
     return cs
@@ -213,7 +215,7 @@ def partitions(case, quick, full_two_cut):
 
 def run(ctx):
     global CASES
-    CASES = build_cases(ctx.seed)
+    CASES = build_cases(ctx.seed, ctx.quick)
     ctx.rule = ("every partition (0,1,2 cuts exhaustively for small streams; 2 cuts with one near a frame "
                 "boundary for larger ones; all 3-cuts near frame starts; 1-byte and k-byte chunkings) of each "
                 "corpus stream x marker-free garbage between frames, fed to the real socket_read_task; "
